@@ -56,6 +56,8 @@ class Engine:
         self.star_args = []
         self.cuts = 0
         self.posvars = set()
+        self.known = {}
+        self._keep = []
         # statistics
         self.nq = 0
         self.tq = 0.0
@@ -97,11 +99,17 @@ class Engine:
             return True
         if z3.is_false(cond):
             return False
+        cid = cond.get_id()
+        if cid in self.known:
+            return self.known[cid]
         key = cond.sexpr()
         hit, d = self._replay(key)
         if hit:
             self._assert(cond if d else z3.Not(cond))
+            self.known[cid] = d
+            self._keep.append(cond)
             return d
+        self._keep.append(cond)
         rt = self.check(cond)
         rf = self.check(z3.Not(cond))
         if rt == z3.unknown or rf == z3.unknown:
@@ -112,14 +120,17 @@ class Engine:
             self.pending.append(list(self.trace) + [(False, key)])
             self.trace.append((True, key))
             self._assert(cond)
+            self.known[cid] = True
             return True
         if rt == z3.sat:
             self.trace.append((True, key))
             self._assert(cond)
+            self.known[cid] = True
             return True
         if rf == z3.sat:
             self.trace.append((False, key))
             self._assert(z3.Not(cond))
+            self.known[cid] = False
             return False
         raise Abort("infeasible", key[:200])
 
@@ -176,6 +187,8 @@ class Engine:
             self.star_args = []
             self.cuts = 0
             self.posvars = set()
+            self.known = {}
+            self._keep = []
             self.s.push()
             for a in assume:
                 self.s.add(a)
